@@ -586,7 +586,15 @@ class GetIoLoop(Contract):
 
         def io_loops(I):
             return I.st.ghost['io_loops_obj']
-        return {'builtin_IOLoop.current': current, 'builtin_IOLoop': new_loop, 'builtin_threading.Thread': thread,
+
+        def running_loop(I, args, kwargs, fr):
+            # asyncio.get_running_loop() / get_event_loop(): whether the caller's loop is ALREADY RUNNING is not something a
+            # constructor may depend on (pipelines are commonly built first and the loop started afterwards): either answer
+            if I.branch(z3.Bool(sym.fresh_name('no_loop_is_running_yet'))):
+                raise PyRaise(VExc('RuntimeError'))
+            return VElem(z3.Const(sym.fresh_name('asyncio_loop'), sym.Elem))
+        return {'builtin_asyncio.get_running_loop': running_loop, 'builtin_asyncio.get_event_loop': running_loop,
+                'builtin_IOLoop.current': current, 'builtin_IOLoop': new_loop, 'builtin_threading.Thread': thread,
                 'builtin_dask_default_client': default_client, 'implies': implies_, 'truthy': truthy, 'io_loops': io_loops}
 
     def summaries(self):
